@@ -49,7 +49,8 @@ def jsonable(x):
 
 
 class Ctx:
-    def __init__(self, prop: str, tier: str, seed: int, shard=(0, 1), replaying=False):
+    def __init__(self, prop: str, tier: str, seed: int, shard=(0, 1), replaying=False, scale: float = 1.0):
+        self.scale = float(os.environ.get("SPV_THOROUGH_SCALE") or scale)       # multiplies the random-case budgets of the thorough tier
         self.prop = prop
         self.tier = tier
         self.seed = seed
@@ -81,7 +82,7 @@ class Ctx:
         """Case budget for this process (thorough budgets are divided over shards)."""
         if self.quick:
             return quick
-        return max(1, thorough // self.shard[1])
+        return max(1, int(thorough * self.scale) // self.shard[1])
 
     def mine(self, i: int) -> bool:
         """True if item i of an enumerated space belongs to this shard."""
